@@ -24,7 +24,9 @@ C12 line protocol.  One line = one whole case.
        retry=1: an op that raised Timeout is called again, at most (#t events + 1) attempts in total
      output: one record per attempt, `;`-joined:  <res>/<rbuf hex>
        res : ok:<hex|-> | closed | toolong | timeout | oserror | fuel
-       retry=1 appends ` #<final result of every call, `,`-joined>/<final rbuf>|<number of operations>`
+       a framing call (p s u c) may carry `@<obs>` per attempt as well: the model computes the attempt and is then
+       re-seated on the observed split when that is a split of the same bytes owed (`reseat`; the res part is ignored)
+       retry=1 appends ` #<final result of every call, `,`-joined>/<final rbuf ++ undelivered>|<number of operations>`
        computed by `runMixed` over `resolveMixed` (= `runCalls` / `resolveCalls` when no recv was observed)
   tx <script> <op> ...
        script : `-` | `a<k>` (send accepts at most k bytes) | `t` | `w` (SEv.clock) | `e` (transient
@@ -126,16 +128,6 @@ def showDOut : DOut → String
   | .fault .osError => "oserror"
   | .valueError => "valueerror"
 
-/-- one call with the harness's retry discipline (again after a fault, at most `k` attempts); a record per attempt -/
-def runCallD (c : Call) : Nat → BSock → List String → BSock × List String
-  | 0, b, acc => (b, acc)
-  | k + 1, b, acc =>
-    let (out, b') := dcall Gen.RECV_LARGE_MAXSIZE c b
-    let rec_ := s!"{showDOut out}/{natsToHex b'.rx.rbuf}"
-    match out with
-    | .fault _ => runCallD c k b' (rec_ :: acc)
-    | _ => (b', rec_ :: acc)
-
 /-! ### round 3c: observed recv attempts (acceptance steps) -/
 
 abbrev Obs := Option (RecvObs × Fault)     -- `none` = an outcome that is never acceptable (`X`)
@@ -158,7 +150,25 @@ def parseObsList? (l : List String) : Option (List Obs) :=
   l.foldr (fun o acc => match acc, parseObs? o with
     | some l, some x => some (x :: l) | _, _ => none) (some [])
 
-/-- a receive-side token: the call, and the observed attempts written behind it (`@`-joined; recv only) -/
+/-- the split observed after an attempt (`none`: nothing usable was observed) -/
+def seatOf : List Obs → Option RecvObs
+  | some (o, _) :: _ => some o
+  | _ => none
+
+/-- one framing call with the harness's retry discipline (again after a fault, at most `k` attempts); a record per
+    attempt.  The model computes the attempt; then it is re-seated on the split observed after that attempt when that
+    is a split of the same bytes owed (`dseat` / `reseat`) - the value is pinned, the split is free. -/
+def runCallD (c : Call) (s0 : List Ev) : Nat → List Obs → BSock → List String → BSock × List String
+  | 0, _, b, acc => (b, acc)
+  | k + 1, seats, b, acc =>
+    let (out, b1) := dcall Gen.RECV_LARGE_MAXSIZE c b
+    let b' := dseat s0 (seatOf seats) b1
+    let rec_ := s!"{showDOut out}/{natsToHex b'.rx.rbuf}"
+    match out with
+    | .fault _ => runCallD c s0 k seats.tail b' (rec_ :: acc)
+    | _ => (b', rec_ :: acc)
+
+/-- a receive-side token: the call, and what was observed of its attempts written behind it (`@`-joined) -/
 def parseRxTok? (tok : String) : Option (Call × List Obs) :=
   match splitOnChar tok '@' with
   | [] => none
@@ -185,12 +195,12 @@ def toMCall : Call × List Obs → Option MCall
   | (.recv n, o :: os) =>
     ((o :: os).foldr (fun o acc => match acc, o with
       | some l, some (x, _) => some (x :: l) | _, _ => none) (some [])).map (MCall.recvObs n)
-  | (c, _) => some (.call c)
+  | (c, obs) => some (.call c (seatOf obs.reverse))        -- the split after the LAST attempt
 
 /-- one final result per call that has one (not setmaxsize): of an observed recv, that of its last attempt -/
 def finalsOf (large : Nat) : Nat → List MCall → List Res → List Res
   | _, [], _ => []
-  | selfMax, .call c :: cs, rs =>
+  | selfMax, .call c _ :: cs, rs =>
     match c.op large selfMax with
     | some _ =>
       match rs with
@@ -217,9 +227,9 @@ def handleRx (toks : List String) : String :=
           | some (.recv n, o :: os) =>
             let (b', acc') := runRecvD n (o :: os) b acc
             go b' ts acc'
-          | some (c, _) =>
+          | some (c, seats) =>
             -- setmaxsize never raises, so it gets its single record either way
-            let (b', acc') := runCallD c tries b acc
+            let (b', acc') := runCallD c evs tries seats b acc
             go b' ts acc'
           | none => none
       match go ⟨cfg, ⟨[], evs⟩, ⟨[], [], []⟩, tagsOf script, []⟩ ops [] with
@@ -235,10 +245,10 @@ def handleRx (toks : List String) : String :=
             match pcalls.foldr (fun p acc => match acc, toMCall p with
                 | some l, some m => some (m :: l) | _, _ => none) (some []) with
             | some mcalls =>
-              match runMixed cfg (resolveMixed Gen.RECV_LARGE_MAXSIZE cfg.maxsize mcalls) ⟨[], evs⟩ with
+              match runMixed cfg evs (resolveMixed Gen.RECV_LARGE_MAXSIZE cfg.maxsize mcalls) ⟨[], evs⟩ with
               | some (rs, stf) =>
                 let fin := finalsOf Gen.RECV_LARGE_MAXSIZE cfg.maxsize mcalls rs
-                s!"{body} #{",".intercalate (fin.map showRes)}/{natsToHex stf.rbuf}|{nops}"
+                s!"{body} #{",".intercalate (fin.map showRes)}/{natsToHex stf.view}|{nops}"
               | none => s!"{body} #rejected"
             | none => s!"{body} #rejected"
           | none => "bad-op"
@@ -390,7 +400,7 @@ def handleNsr (toks : List String) : String :=
         | k + 1, st, sp, acc =>
           let (r, st') := ns.readNsI nsCfg arg st
           let st'' := match sp with
-            | o :: _ => reseat o st'
+            | o :: _ => reseat script o st'
             | [] => st'
           go k st'' sp.tail (s!"{showNsRes r}/{natsToHex st'.view}" :: acc)
       let outs := go nreads ⟨[], script⟩ splits []
@@ -424,6 +434,7 @@ def parseDOp? (tok : String) : Option DOp :=
 /-- a dx op as it reaches the driver: a plain model call, an observed recv, a send-side call with offers -/
 inductive XOp where
   | plain (o : DOp)
+  | callSeat (c : Call) (o : Obs)
   | recvObs (size : Nat) (o : Obs)
   | sopA (offers : List Nat) (o : SOp)
 
@@ -433,6 +444,7 @@ def parseXOp? (tok : String) : Option XOp :=
   | [t, x] =>
     match parseDOp? t with
     | some (.call (.recv n)) => (parseObs? x).map (XOp.recvObs n)
+    | some (.call c) => (parseObs? x).map (XOp.callSeat c)
     | some (.recvFlags n 0) => (parseObs? x).map (XOp.recvObs n)
     | some (.sop o) => (parseOffers? x).map fun l => XOp.sopA l o
     | some (.sendFlags d 0) => (parseOffers? x).map fun l => XOp.sopA l (.send d)
@@ -456,6 +468,10 @@ def handleDx (toks : List String) : String :=
         | [] => (acc.reverse, b)
         | .plain o :: os =>
           let (out, b') := dstep Gen.RECV_LARGE_MAXSIZE o b
+          go b' os (show4 (showDOut out) b' :: acc)
+        | .callSeat c o :: os =>
+          let (out, b1) := dstep Gen.RECV_LARGE_MAXSIZE (.call c) b
+          let b' := dseat revs (seatOf [o]) b1
           go b' os (show4 (showDOut out) b' :: acc)
         | .recvObs _ none :: os => go b os (show4 "rejected" b :: acc)
         | .recvObs n (some (o, cls)) :: os =>
